@@ -197,6 +197,24 @@ def execute(ctx: RunCtx) -> None:
                                                      f"(seed period {T_seed if seed_has_period else None!r})")
             if not (rec["res"] < tol):
                 raise Violation("C13/member-constraint", f"{what}: member {i} was accepted with residual {rec['res']:.3e} >= tol {tol:.1e}")
+    # the family container built from the result (third observation point of the property)
+    from hiten.system.family import OrbitFamily
+    try:
+        fam2 = OrbitFamily.from_result(result, parameter_name=st)
+    except Exception as e:
+        raise Violation("C13/family-from-result", f"{what}: OrbitFamily.from_result raised {type(e).__name__}: {e}")
+    if len(fam2) != len(fam_objs):
+        raise Violation("C13/family-from-result", f"{what}: OrbitFamily.from_result holds {len(fam2)} orbits, the result {len(fam_objs)}")
+    for i, (a, b) in enumerate(zip(fam2, fam_objs)):
+        xa = np.array(a.initial_state, float)
+        if not np.array_equal(xa, np.array(b.initial_state, float)) or a.period != b.period:
+            raise Violation("C13/family-from-result", f"{what}: orbit {i} of OrbitFamily.from_result differs from member {i} of the result")
+        want = xa[idxs][0] if len(idxs) == 1 else float(np.linalg.norm(xa[idxs]))
+        if not abs(float(fam2.parameter_values[i]) - want) <= 1e-15 * max(1.0, abs(want)):
+            raise Violation("C13/family-from-result", f"{what}: OrbitFamily.parameter_values[{i}]={fam2.parameter_values[i]!r}, member's parameter {want!r}")
+        if not (np.isnan(fam2.periods[i]) if b.period is None else fam2.periods[i] == b.period):
+            raise Violation("C13/family-from-result", f"{what}: OrbitFamily.periods[{i}]={fam2.periods[i]!r}, member's period {b.period!r}")
+    ctx.probe("family_container_checked")
     # independent closure of up to two members (costly)
     cand = list(range(1, len(fam_objs)))
     for _ in range(min(2, len(cand))):
